@@ -96,6 +96,9 @@ def c01(ctx):
     import props_engine
     hb, hev, hh, hsk = props_engine.run_traces(ctx, "walk", 8, 4 if quick else 20, 160 if quick else 300, tlc_env={"RESYNC": "0"}, label="c01walk")
     props_engine.absorb_bad(ctx, hb)
+    sb, sev, sh, ssk = props_engine.run_traces(ctx, "scripts", 1, 0, 0, tlc_env={"RESYNC": "0"}, label="c01scripts")
+    props_engine.absorb_bad(ctx, sb)
+    hev += sev
     ctx.evaluations += hev
     ctx.extra["history_events_validated"] = hev
     geo = engines.oracle_replay(ctx, ep_geometry_family(), 0, ["C01"], label="epgeometry")
